@@ -187,10 +187,9 @@ func c56(c *Ctx) {
 					case ex(plain, 1)(p):
 						c.MustFact(r, "host:port:only-if-the-split-succeeded", IsNil(ex(plain, 2)))
 						c.MustFact(r, "host:port:port-not-empty", Cmp(ex(plain, 1), token.NEQ, ConstStr("")))
-						if ph, ok := h.(*ssa.Phi); ok {
-							for i, e := range ph.Edges {
-								pr := ph.Block().Preds[i]
-								fs := append(append([]Fact(nil), FactsAtBlock(pr)...), edgeOnlyFacts(pr, ph.Block())...)
+						if lvs := valueLeaves(h); len(lvs) >= 2 {
+							for _, lf := range lvs {
+								e, fs := lf.Val, lf.Facts
 								if ConstStr("localhost")(e) {
 									_, ok := hasFact(fs, Cmp(ex(plain, 0), token.EQL, ConstStr("")))
 									c.Expect(ok, r, f, "localhost-only-for-an-empty-host", "localhost replaces a non-empty host")
